@@ -164,6 +164,28 @@ LinesFold(acc, lines, i, msgs, stamp) ==
                    [] OTHER -> acc
        IN LinesFold(a2, lines, i + 1, msgs, stamp)
 
+(* ---- named deviation Port_DR_has_no_latch (known finding of C16) seen through control lines ------ *)
+(* The exact relation of the emulator's latch-less data register (see TraceBus.DevPort), folded over  *)
+(* the lines of one poll: dv = [dr, ddr, pin : per port, msgs : announcements in order].              *)
+DevStore(dv, a, v, stamp) ==
+  IF ~Accessible(a) \/ ~IsPortReg(a) THEN dv
+  ELSE IF IsDr(a) THEN
+    LET n == a - DrLo + 1
+    IN IF v = dv.dr[n] THEN dv
+       ELSE [dv EXCEPT !.dr[n] = (v & dv.ddr[n]) | (dv.pin[n] & Inv8(dv.ddr[n])), !.msgs = Append(@, IoportMsgS(n, v & dv.ddr[n], stamp))]
+  ELSE
+    LET n == a - DdrLo + 1
+        nd == (dv.dr[n] & v) | (dv.pin[n] & Inv8(v))
+    IN IF v = dv.ddr[n] THEN dv
+       ELSE [dv EXCEPT !.dr[n] = nd, !.ddr[n] = v, !.msgs = Append(@, IoportMsgS(n, nd & v, stamp))]
+DevPin(dv, n, v) == IF n \in Ports THEN [dv EXCEPT !.dr[n] = (@ & dv.ddr[n]) | (v & Inv8(dv.ddr[n])), !.pin[n] = v] ELSE dv
+RECURSIVE DevFold(_, _, _, _)
+DevFold(dv, lines, i, stamp) ==
+  IF i > Len(lines) THEN dv
+  ELSE LET f == LineEffect(lines[i])
+       IN IF f.k = "stop" THEN dv
+          ELSE DevFold(IF f.k = "u8" THEN DevStore(dv, f.a, f.v, stamp) ELSE IF f.k = "pin" THEN DevPin(dv, f.p, f.v) ELSE dv, lines, i + 1, stamp)
+
 NonSpecial(a) == ~IsPortReg(a) /\ a # TCNT0 /\ a # TCSR0
 (* logged diff d agrees with memory m2 (after) relative to m1 (before) on all plain addresses *)
 PlainDiffOK(d, m1, m2) ==
@@ -179,7 +201,13 @@ PollEvent(e) ==
               /\ PortsReadOK(acc.ports, e.dr)
               /\ ~acc.stopped                                        \* after a stop line run() returns: no further poll is observed
               /\ e.sum = vSum
-  IN /\ IF ok \/ acc.dub \/ PROP = "C15" THEN TRUE ELSE Rep("MISMATCH", e, "control lines of one poll", <<"effects of the lines">>)
+      dv   == DevFold([dr |-> vOdr, ddr |-> [n \in Ports |-> vPorts[n].ddr], pin |-> [n \in Ports |-> vPorts[n].pin], msgs |-> <<>>], e.lines, 1, e.sum)
+      devOK == /\ \A n \in Ports : e.dr[n] = dv.dr[n]
+               /\ e.msgs = dv.msgs
+               /\ PlainDiffOK(e.wr, M(vS), acc.mem) /\ ~acc.stopped /\ e.sum = vSum
+  IN /\ IF ok \/ acc.dub \/ PROP = "C15" THEN TRUE
+        ELSE IF devOK THEN Rep("DEVIATION", e, "control lines of one poll", <<"Port_DR_has_no_latch">>)
+        ELSE Rep("MISMATCH", e, "control lines of one poll", <<"effects of the lines">>)
      /\ vR' = [vR EXCEPT !.s = [vS EXCEPT !.ov = WrAll(acc.mem, e.wr).ov], !.ports = acc.ports, !.odr = [n \in Ports |-> e.dr[n]], !.tm = acc.tm, !.paused = acc.paused, !.stopped = acc.stopped, !.cov = cov \cup {<<"poll", IF Len(e.lines) = 0 THEN "empty" ELSE IF Len(e.lines) = 1 THEN "single" ELSE "batch">>}]
 
 (* ---- one iteration -------------------------------------------------------------------------- *)
